@@ -31,7 +31,7 @@ CONFIGS_THOROUGH = ["dir"]
 def roles(ctx):
     from ..check import FailClosed
     dirs = [a for a in ctx.facts.adts.values() if a["local"] and a["kind"] == "struct" and
-            any("RawFd" in f["ty"] or f["ty"] == "i32" for f in a["variants"][0]["fields"]) and
+            any("RawFd" in f["ty"] or f["ty"] == "i32" or f["ty"].endswith("OwnedFd") for f in a["variants"][0]["fields"]) and
             any(boolish(ctx, f["ty"]) for f in a["variants"][0]["fields"])]
     if len(dirs) != 1:
         raise FailClosed("base-directory struct (raw fd + bool) not found uniquely (is the `dir` feature analysed?)")
@@ -332,7 +332,10 @@ def r1_r2(ctx, R):
         for e in o.events:
             if e["k"] == "call" and e["callee"].get("path") == "libc::openat":
                 fd = e["args"][0]
-                if fd != ("field", ("deref", ("param", 1)), R["fd_f"]):
+                own = ("field", ("deref", ("param", 1)), R["fd_f"])
+                via_accessor = isinstance(fd, tuple) and fd[0] == "call" and fd[1].split("::")[-1] in ("as_raw_fd", "as_fd") and \
+                    len(fd[2]) == 1 and fd[2][0] in (own, ("&", own))
+                if fd != own and not via_accessor:
                     okfd = False
                     ctx.violation("C19.R2", "C19.R2|dirfd", "openat is not given the base directory's own fd: %s" % short(fd, 60), where=where(e))
     if okfd:
